@@ -69,6 +69,7 @@ class Run:
         self.ignore = ignore                    # callable(stmt) -> True: statement irrelevant to the tracked state, skipped
         self.externs = externs or {}            # name of an external (system) function -> callable(run, call expr, arg values)
         self.recs = {}                          # name -> {field: value}: records reached through ('R', name) references
+        self.sinks = {}                         # member name -> buffer name: String members that only receive appended text
         self.elem_size = {}                     # buffer name -> size in bytes of one element (byte-based sizes / offsets are scaled)
         self.objects = objects                  # True: local asl::String / asl::Array objects are modelled as bounds-checked buffers
         self.objlen = {}                        # var id -> element count of a modelled object (locals and registered parameters)
@@ -197,9 +198,11 @@ class Run:
         if not (isinstance(dst, tuple) and dst[0] == 'P' and isinstance(size, int)):
             raise Unsupported('`%s`' % pe(e))
         import re
-        m = re.match(r'^%(0?)(\d*)([xXdiu])$', text)
-        if not m:
+        m0 = re.match(r'^((?:[^%]|%%)*)%(0?)(\d*)([xXdiu])((?:[^%]|%%)*)$', text)
+        if not m0:
             raise Unsupported('format "%s"' % text)
+        pre, post = m0.group(1).replace('%%', '%'), m0.group(5).replace('%%', '%')
+        m = re.match(r'^%(0?)(\d*)([xXdiu])$', text[len(m0.group(1)):len(text) - len(m0.group(5))])
         width = int(m.group(2) or 0)
         if isinstance(v, int):
             if m.group(3) in 'xX':
@@ -207,14 +210,14 @@ class Run:
             else:
                 body = '%d' % v
             body = body.rjust(width, '0' if m.group(1) else ' ')
-            out = [ord(c) for c in body]
+            out = [ord(c) for c in pre + body + post]
         else:
             # abstract value: only two-digit hexadecimal of a byte-sized value is modelled (digit = table[nibble])
             import absim
             if not (isinstance(v, absim.BV) and m.group(3) in 'xX' and width == 2 and m.group(1) and v.lo >= 0 and v.hi <= 255):
                 raise Unsupported('`%s` with an abstract argument' % pe(e))
             tabv = self.HEXL if m.group(3) == 'x' else self.HEXU
-            out = [absim.tab(tabv, (v >> 4) & 15), absim.tab(tabv, v & 15)]
+            out = [ord(c) for c in pre] + [absim.tab(tabv, (v >> 4) & 15), absim.tab(tabv, v & 15)] + [ord(c) for c in post]
         out = out[:max(size - 1, 0)] + [0]
         if size <= 0:
             return len(out) - 1
@@ -274,6 +277,24 @@ class Run:
             v = v * base + digits.index(ch)
             j += 1
         return v
+
+    def sink_call(self, e, name, sv):
+        """text appended to a String member that is only written: `m << x`, `m += x`, `m.append(x)`"""
+        out = self.bufs[self.sinks[sv[1]]]
+        if (e.get('op') in ('<<', '+=') or name in ('append', 'operator<<', 'operator+=')) and len(e.get('a', [])) == 1:
+            a = e['a'][0]
+            at = T(self.f, strip_lv(a).get('t'))
+            v = self.val(a)
+            if isinstance(v, tuple) and v[0] == 'P':
+                out.extend(self.cstring(v, e.get('l')))
+            elif isinstance(v, int) and (at.get('bits') == 8 or strip(a).get('chr')):
+                out.append(v)
+            else:
+                raise Unsupported('`%s` appends something that is neither a character nor a string' % pe(e))
+            return sv
+        if name in ('length',) and not e.get('a'):
+            return len(out)
+        raise Unsupported('member call `%s` on an output string' % pe(e))
 
     def tmp_of(self, e):
         """the call's object is a temporary string produced by a modelled call (substring): its buffer name"""
@@ -445,6 +466,8 @@ class Run:
             if ('O', e['id']) in self.bufs:
                 return ('P', ('O', e['id']), 0)
             raise Unsupported('variable %s' % e.get('n'))
+        if k == 'mem' and _on_this(e) and e.get('f') in self.sinks:
+            return ('SINK', e['f'])
         if k == 'mem' and not _on_this(e):
             base = self.val(e['b'])
             if isinstance(base, tuple) and base[0] == 'R':
@@ -644,12 +667,32 @@ class Run:
             return dst
         if fn in self.externs and not e.get('clsp') and e.get('obj') is None:
             return self.externs[fn](self, e, [self.val(a) for a in e.get('a', [])])
+        if fn in ('strpbrk', 'strcspn', 'strspn') and not e.get('clsp'):
+            a = [self.val(x) for x in e.get('a', [])]
+            hay, cs = self.cstring(a[0], e.get('l')), set(self.cstring(a[1], e.get('l')))
+            k_ = 0
+            while k_ < len(hay) and ((hay[k_] in cs) == (fn == 'strspn')):
+                k_ += 1
+            if fn == 'strpbrk':
+                return ('P', a[0][1], a[0][2] + k_) if k_ < len(hay) else 0
+            return k_
         if fn in ('strlen', 'strstr', 'strchr', 'strrchr') and not e.get('clsp'):
             return self.libc_str(e, fn)
         if fn in ('snprintf', 'sprintf') and not e.get('clsp'):
             return self.libc_printf(e, fn)
         if fn in ('strtoul', 'strtol') and not e.get('clsp') and len(e.get('a', [])) == 3:
             return self.libc_strtoul(e)
+        if e.get('obj') is not None and self.sinks:
+            so = strip_lv(e['obj'])
+            while so.get('k') in ('temp', 'paren', 'cast'):
+                so = strip_lv(so['e'])
+            sv = None
+            if so.get('k') == 'mem' and _on_this(so) and so.get('f') in self.sinks:
+                sv = ('SINK', so['f'])
+            elif so.get('k') == 'call':
+                sv = self.val(so)
+            if isinstance(sv, tuple) and sv[0] == 'SINK':
+                return self.sink_call(e, name, sv)
         if e.get('obj') is not None and self.tmp_of(e) is not None:
             return self.tmp_call(e, name)
         if e.get('obj') is not None and self.obj_of(e) is not None:
